@@ -486,8 +486,14 @@ fn exec_step(env: &mut Env, st: &Value) -> Result<Value, String> {
     let no_stats = json!({"added":0,"updated":0,"removed":0,"skipped":0});
     match a {
         "Write" => {
+            // "old": the file is replaced by an OLDER copy (cp -p, rsync -t, tar x): its mtime
+            // goes 2 s back from what it was instead of forward
+            let prev = if st["old"] == true { crate::common::mtime_ms(&path).ok() } else { None };
             std::fs::write(&path, content_bytes(&p, st["c"].as_i64().ok_or("Write without c")?)).map_err(io)?;
-            env.stamp(&path);
+            match prev {
+                Some(m) => crate::common::set_mtime_ms(&path, m - 2000)?,
+                None => env.stamp(&path),
+            }
             Ok(no_stats)
         }
         "Chmod" => {
@@ -873,7 +879,8 @@ fn random_script(rng: &mut Rng, len: usize, focus: &str) -> Value {
         let dp: &[&str] = if rng.chance(1, 2) { &["d"] } else { *rng.pick(&[&["d", "x"][..], &["d", "x", "z"][..], &["d", "y"][..], &["f"][..], &["d"][..]]) };
         let cd = rng.range(1, 2) as i64;
         let e = match rng.below(14) {
-            0..=4 => json!({"a":"Write","p":p,"c":c}),
+            0..=3 => json!({"a":"Write","p":p,"c":c}),
+            4 => json!({"a":"Write","p":p,"c":c,"old":true}),
             5 => json!({"a":"Chmod","p":p}),
             6 => json!({"a":"Symlink","p":p,"t": *rng.pick(&["f", "out", "out", "out/x"])}),
             7 | 8 => json!({"a":"Delete","p":p}),
